@@ -42,6 +42,8 @@ M = {
     "an object/group with a non-owning container (Mut/Ref) and an Arc context, released through the generated C drop helper", ["C17"], "C17:drop-helper-accounting (mock arc drop counter in the executed C driver)"),
  "C18-consuming-wrapper-undeclared-ctx": ("C18", "cglue-bindgen/src/types.rs create_wrapper: the `ctx_x_drop(&___ctx)` line of consuming C wrappers is gated on the container having a drop helper instead of the context, so Box + NoContext objects with a by-value method get a reference to an undeclared `___ctx`",
     "a trait object with a consuming method, CBox container and NoContext", ["C18"], "C18:does-not-compile (gcc/clang -std=c99 on the post-processed header)"),
+ "C05-cvec-first-alloc-in-caller": ("C05", "cglue/src/vec.rs CVec::reserve: when capacity == 0 the first buffer is allocated directly in the calling module (Vec::with_capacity) instead of through the stored reserve_fn, while drop_fn/reserve_fn of the creator are kept",
+    "a still unallocated CVec created in one module whose first push happens in another, separately built module; only distinct (tagging) allocators expose it, contents stay correct", ["C05", "C11"], "C05:foreign-free (per-module tagging allocators across dlopen) and C11 grow-not-via-reserve-fn (trampoline in the published field)"),
 }
 for name, (prop, what, needs, caught_by, how) in M.items():
     d = os.path.join(ROOT, name)
